@@ -297,7 +297,7 @@ def run_case(desc):
             else:
                 case = mapgen.case_from_seed(desc["seed"], i)
                 run_map_case(v, case, rng, scratch, keys)
-    return v.result(keys=keys, sample=sample if desc["start"] % 100 == 0 else None)
+    return v.result(evaluations=v.counters.get("pairs", 0), keys=keys, sample=sample if desc["start"] % 100 == 0 else None)
 
 
 def finalize(agg, tier, seed):
